@@ -487,6 +487,7 @@ def run(ctx):
     run_list(ctx)
     run_timepass(ctx)
     run_list_export(ctx)
+    run_probepass(ctx)
 
 
 # ---------------------------------------------------------------------------------------------
@@ -789,3 +790,50 @@ def run_list_export(ctx):
             ctx.add(RULE, fn, 'list-export-order', 'violation', '; '.join(problems) or 'the exported vector is not collected from `buffer.iter()`', ['C07', 'C13'], fn.line)
         else:
             ctx.add(RULE, fn, 'list-export-order', 'ok', 'the export collects the purged buffer front to back, entry by entry', ['C07', 'C13'], fn.line)
+
+
+# ---- the probe a searching operation is given is the probe it searches for -------------------------------------------------------
+def run_probepass(ctx):
+    """A public operation with a search role hands its own key parameter to the search it delegates to: every argument of the key
+    parameter's type that it passes to a method of its own collection is that parameter."""
+    prog = ctx.prog
+    from rules.descent import ROLE_BY_METHOD, PROPS as TREE_PROPS2
+    for fn in prog.fns.values():
+        m = fn.trait_method()
+        if fn.is_closure or not fn.trait_item or m not in ROLE_BY_METHOD or not fn.info.get('mir'):
+            continue
+        if fn.self_adt not in prog.tree_adts and fn.self_adt not in prog.list_adts:
+            continue
+        b = fn.body
+        names = {i: b.local_name(i) for i in range(2, b.arg_count + 1)}
+        kp = [i for i, nm_ in names.items() if nm_ == 'key']
+        if len(kp) != 1:
+            continue
+        kp = kp[0]
+        kty = (b.locals[kp]['ty'] or '').strip()
+        if [i for i in names if (b.locals[i]['ty'] or '').strip() == kty] != [kp]:
+            continue
+        if fn.self_adt in prog.list_adts:
+            props = ['C13']
+        else:
+            props = list(TREE_PROPS2.get((fn.family, m), [])) or ['C10']
+        bad = None
+        seen_call = False
+        for c in b.calls:
+            tgt = prog.resolve(c)
+            if tgt is None or tgt.is_closure or tgt.self_adt != fn.self_adt or tgt.path in prog.accessors:
+                continue
+            for a in c.args[1:]:
+                if (a.ty or '').strip() != kty:
+                    continue
+                seen_call = True
+                sa = strip(a)
+                if not (sa is not None and sa.kind == 'param' and sa.args[0] == kp):
+                    bad = (c, sa)
+        if not seen_call:
+            continue
+        if bad:
+            c, sa = bad
+            ctx.add(RULE, fn, 'probe-passed-on', 'violation', '%s searches for %s instead of its own parameter `key` (in the call of %s): the answer is the answer to another question' % (m, show(sa, 3), prog.resolve(c).name), props, span_line(c, fn.line))
+        else:
+            ctx.add(RULE, fn, 'probe-passed-on', 'ok', 'the search %s delegates to is given the operation\'s own `key`' % m, props, fn.line)
